@@ -714,7 +714,7 @@ def run_launch(case: dict[str, Any]) -> Outcome:
 
 def main(chk: Check) -> None:
     # regression inputs of repaired findings (replayed without the generator)
-    reg = Path(__file__).resolve().parent.parent / "replays" / "C33" / "regression-stale-idle-timer.json"
+    reg = Path(__file__).resolve().parent.parent / "regressions" / "C33-stale-idle-timer.json"
     if reg.exists():
         from lib import harness as _h
 
